@@ -249,6 +249,17 @@ def mk(nodes, share, repl=False):
     return c
 
 
+# the consumer-chosen map type, in the spellings the README / tests / users write: a map's values are behind the map's own allocation
+# whatever its name is, so cycles through map values need no Box under any of them
+MAP_TYPES = ["std::collections::BTreeMap", "::std::collections::HashMap", "::verif_support::ext::VMap"]
+
+
+def with_map_type(c, mt):
+    c2 = dict(c, mapt=mt)
+    c2["key"] = key_of([c["doc"], c["repl"], mt])
+    return c2
+
+
 def _l(x):
     return x
 
@@ -301,6 +312,14 @@ def cases(tier, seed):
             for b in o3:
                 for c in o3:
                     out.append(mk([a, b, c], False))
+    # the same graphs under other map types, wherever a reference passes through map values (n <= 2; every n in the thorough tier)
+    base = list(out)
+    for c in base:
+        if c.get("repl") or (tier == "quick" and c["n"] > 2):
+            continue
+        if any(nd[0] != "alias" and any(e[0] == "map" for e in nd[1]) for nd in c["nodes"]):
+            for mt in (MAP_TYPES if (tier != "quick" or c["n"] == 1) else MAP_TYPES[:1]):
+                out.append(with_map_type(c, mt))
     return out
 
 
@@ -348,11 +367,18 @@ def containment_cycle(types):
     return None
 
 
+def _settings(c):
+    st = dict(REPL_SETTINGS) if c.get("repl") else {}
+    if c.get("mapt"):
+        st["map_type"] = c["mapt"]
+    return st
+
+
 def execute(cases_, tier, seed):
     res = Result()
     res.rule = ("one case = one reference multigraph over n definitions (+ optional sharing definition) ingested by the real typify-impl; "
                 "non-trivial = graph with a by-value cycle in the input; distinct by schema document")
-    jobs = [{"id": c["key"], "settings": REPL_SETTINGS if c.get("repl") else {}, "ops": [{"root": c["doc"]}], "want": ["api"]} for c in cases_]
+    jobs = [{"id": c["key"], "settings": _settings(c), "ops": [{"root": c["doc"]}], "want": ["api"]} for c in cases_]
     ans = adapter.run_jobs(jobs)
     to_compile = {}
     n_box_graphs = 0
@@ -362,7 +388,7 @@ def execute(cases_, tier, seed):
         res.transitions += 1
         nodes = [_deser(nd) for nd in c["nodes"]]
         cyc_in = input_has_byvalue_cycle(nodes)
-        feats = {"n": c["n"], "share": c["share"], "kinds": "+".join(nd[0] for nd in nodes), "repl": bool(c.get("repl"))}
+        feats = {"n": c["n"], "share": c["share"], "kinds": "+".join(nd[0] for nd in nodes), "repl": bool(c.get("repl")), "mapt": c.get("mapt")}
         op = (a.get("ops") or [{}])[0]
         if a.get("abort") or op.get("status") != "ok":
             res.violations.append(Violation(c["key"], "ingest-failed", "recursive schema rejected/aborted: %s" % (op or a), c, expected="ok",
@@ -383,7 +409,7 @@ def execute(cases_, tier, seed):
             names = {t["id"]: t.get("name") for t in types}
             res.violations.append(Violation(c["key"], "box-without-cycle", "Box introduced although the definitions contain no by-value cycle: %s" % [names[b] for b in boxes],
                                             c, expected="no Box", observed={"boxes": [names[b] for b in boxes]}, features=feats))
-        if cyc_in and not c.get("repl") and (c["n"] == 1 or (tier != "quick" and c["n"] == 2 and not c["share"])):
+        if cyc_in and not c.get("repl") and not c.get("mapt") and (c["n"] == 1 or (tier != "quick" and c["n"] == 2 and not c["share"])):
             # one representative per distinct generated structure
             sig = key_of(sorted((t.get("name"), t.get("kind"), str(t.get("props") or t.get("variants") or t.get("inner"))) for t in types))
             to_compile.setdefault(sig, c)
